@@ -314,6 +314,16 @@ impl<T: Payload> Scn<T> {
     pub fn finish(mut self, lin_budget: u64, obs: &mut Obs, samples: &mut Vec<Vec<String>>, lin_states: &mut u64) -> Outcome {
         fp::reset_gates();
         let n = self.workers.len();
+        // a scenario that bailed out early (state could not be constructed) may leave workers legitimately
+        // blocked: release them the way a program would, by closing the channel. A worker that is stuck because
+        // of a lost wake-up is not in the wait list any more and stays stuck, so this masks nothing.
+        if (0..n).any(|w| !self.worker_finished(w)) && self.viols.is_empty() {
+            if !self.main.senders.is_empty() {
+                self.mexec(Op::CloseS);
+            } else if !self.main.receivers.is_empty() {
+                self.mexec(Op::CloseR);
+            }
+        }
         let mut stuck_any = false;
         for w in 0..n {
             if !self.join(w) {
